@@ -36,7 +36,6 @@ def rxCacheWrites : List FieldWrite := [
 
 def programFields : List (String × String) := [("code", "[]instruction"), ("funcName", "unistring.String"), ("src", "*file.File"), ("srcMap", "[]srcMapItem")]
 
-def importedFieldsUnsync : List (String × String) := [("s", "string"), ("u", "unicodeString"), ("scanned", "bool")]
 def importedFieldsOnce : List (String × String) := [("s", "string"), ("u", "unicodeString"), ("scanOnce", "sync.Once"), ("scanned", "atomic.Bool")]
 
 def clone_regexpPattern : List String := ["src := $.src", "global := $.global", "ignoreCase := $.ignoreCase", "multiline := $.multiline", "dotAll := $.dotAll", "sticky := $.sticky", "unicode := $.unicode", "ret.regexpWrapper = $.regexpWrapper.clone()", "ret.regexp2Wrapper = $.regexp2Wrapper.clone()", "return ret"]
@@ -46,8 +45,21 @@ def clone_regexpWrapper : List String := ["return $"]
 /-- Files that may assign `code` / `srcMap` (fields only Program has): the compiler. -/
 def compilerFiles : List String := ["compiler.go", "compiler_expr.go", "compiler_stmt.go"]
 
-/-- The functions that read `x.u` of an importedString with no preceding ensureScanned() and no flag test — today. -/
-def rawUReadersUnsync : List String := ["asciiString.StrictEquals", "importedString.StrictEquals"]
+/-! names-map discipline (Names.lean transcribes exactly these texts) and Symbol -/
+
+/-- Every construction of a function-entry instruction: `extensible` is the compile-time `dynamic` flag of the scope
+(a direct sloppy eval can declare variables in it); the class-field initialiser never sets it — class bodies are strict
+code, where eval has its own variable environment. -/
+def extensibleSites : List (String × String) := [("compiledFunctionLiteral.compile:enterFunc", "s.dynamic"), ("compiledFunctionLiteral.compile:enterFuncBody", "e.c.scope.dynamic"), ("compiledFunctionLiteral.compile:enterFunc1", "s.dynamic"), ("compiledFunctionLiteral.compile:enterFuncBody", "e.c.scope.dynamic"), ("compiledFunctionLiteral.compile:enterFuncBody", "e.c.scope.dynamic"), ("compiledClassLiteral.compileFieldsAndStaticBlocks:enterFunc", "<unset>")]
+def bindingCalls : List (String × String) := [("compiledFunctionLiteral.compile", "s.deleteBinding"), ("compiledFunctionLiteral.compile", "s.deleteBinding"), ("compiledClassLiteral.emitGetter", "s.deleteBinding"), ("compiledClassLiteral.compileFieldsAndStaticBlocks", "s.deleteBinding"), ("deleteVar.exec", "stash.deleteBinding"), ("bindVars.exec", "target.createBinding"), ("bindGlobal.exec", "s.createLexBinding"), ("bindGlobal.exec", "s.createLexBinding")]
+def symbolWrites : List (String × String) := [("newSymbol", "init desc")]
+def body_bindVars_exec : List String := ["var target *stash", "for _, name := range d.names { for s := vm.stash; s != nil; s = s.outer { if idx, exists := s.names[name]; exists && idx&maskVar == 0 { vm.throw(vm.alreadyDeclared(name)) return } if s.isVariable() { target = s break } } }", "if target == nil { target = vm.stash }", "deletable := d.deletable", "for _, name := range d.names { target.createBinding(name, deletable) }", "vm.pc++"]
+def body_createBinding : List String := ["if s.names == nil { s.names = make(map[unistring.String]uint32) }", "if _, exists := s.names[name]; !exists { idx := uint32(len(s.names)) | maskVar if deletable { idx |= maskDeletable } s.names[name] = idx s.values = append(s.values, _undefined) }"]
+def body_deleteBinding : List String := ["delete(s.names, name)"]
+def body_isVariable : List String := ["return s.funcType != funcNone"]
+def body_copyStash_exec : List String := ["oldStash := vm.stash", "newStash := &stash{ outer: oldStash.outer, }", "vm.stashAllocs++", "newStash.values = append([]Value(nil), oldStash.values...)", "newStash.names = oldStash.names", "vm.stash = newStash", "vm.pc++"]
+def deleteVarGuards : List String := ["exists", "idx&(maskVar|maskDeletable) == maskVar|maskDeletable"]
+def symbolFields : List (String × String) := [("desc", "String")]
 
 end GojaModel.C16.Expected
 
@@ -84,14 +96,32 @@ theorem toValue_object_expected : Generated.toValueObject = expectedToValueObjec
 theorem imported_writers : ∀ a ∈ Generated.impAcc, a.write = true →
     a.sync = "init" ∨ (a.fn = "importedString.scan" ∧ a.field ≠ "s") ∨ (a.fn = "newScannedImportedString" ∧ a.field = "scanned") := by decide
 
-/-- The memo protocol and its clients are in one of the two analysed shapes. -/
+/-- The memo protocol, the struct and every live access are exactly the once-style shape: flag accessed atomically
+everywhere, `u` written only by scan() (under the Once) and read only after ensureScanned() or under a flag test. -/
 theorem memo_shape :
-    (cfgOfProg Generated.memoProg = some unsyncCfg ∧ Generated.importedFields = Expected.importedFieldsUnsync ∧
-      rawUReaders Generated.impAcc = Expected.rawUReadersUnsync ∧
-      (live Generated.impAcc).all (fun a => a.sync == "plain") = true) ∨
-    (cfgOfProg Generated.memoProg = some onceCfg ∧ Generated.importedFields = Expected.importedFieldsOnce ∧
-      rawUReaders Generated.impAcc = [] ∧
-      (live Generated.impAcc).all (fun a => if a.field == "scanned" then a.sync == "atomic" else a.sync == "plain") = true) := by
+    cfgOfProg Generated.memoProg = some onceCfg ∧ Generated.importedFields = Expected.importedFieldsOnce ∧
+    rawUReaders Generated.impAcc = [] ∧
+    (live Generated.impAcc).all (fun a => if a.field == "scanned" then a.sync == "atomic" else a.sync == "plain") = true := by
   decide
+
+/-- where `extensible` comes from at every function-entry construction site -/
+theorem extensible_sites : Generated.extensibleSites = Expected.extensibleSites := by decide
+
+/-- who calls the writers of a names map: bindVars (on its target), deleteVar, bindGlobal (global stash) — and the
+compiler's own `scope.deleteBinding`, which is a different type -/
+theorem binding_call_sites : Generated.bindingCalls = Expected.bindingCalls := by decide
+
+/-- the five small functions the Names model transcribes, and the deletable test of deleteVar, are textually as
+transcribed (bindVars target selection, createBinding, deleteBinding, isVariable, copyStash) -/
+theorem names_mechanism_text :
+    Generated.body_bindVars_exec = Expected.body_bindVars_exec ∧ Generated.body_createBinding = Expected.body_createBinding ∧
+    Generated.body_deleteBinding = Expected.body_deleteBinding ∧ Generated.body_isVariable = Expected.body_isVariable ∧
+    Generated.body_copyStash_exec = Expected.body_copyStash_exec ∧ Generated.deleteVarGuards = Expected.deleteVarGuards :=
+  ⟨rfl, rfl, rfl, rfl, rfl, rfl⟩
+
+/-- a Symbol has one field, set only by the composite literal in newSymbol: immutable after construction -/
+theorem symbol_immutable :
+    Generated.symbolFields = Expected.symbolFields ∧ Generated.symbolWrites = Expected.symbolWrites ∧
+    (∀ w ∈ Generated.symbolWrites, w.2 = "init desc") := by decide
 
 end GojaModel.C16.Tie
